@@ -289,6 +289,20 @@ adds for a stream that arrived on a link with local peer `linkLocal` from `remot
 def SrpcServer.backLink (c : SrpcServer) (linkLocal remote : Bytes) : Option (Bytes × Bytes) :=
   if !c.disableEstablishLink then some (linkLocal, remote) else none
 
+/-- `stream/srpc/server/lookup.Config`: the second way a `Server` is built (`NewServerWithMux`).
+`server_id` is the server ID the `LookupRpcService` directives of incoming calls carry; it is not
+read by the stream filter. -/
+structure SrpcLookupConfig where
+  peerIds : List Bytes
+  protocolIds : List Bytes
+  serverId : Bytes
+deriving DecidableEq, Repr
+
+/-- `stream_srpc_server_lookup.NewController`: the same parsing as `Config.BuildServer`, through
+`NewServerWithMux`, always with the back link enabled. -/
+def srpcLookupBuild (c : SrpcLookupConfig) : Option SrpcServer :=
+  srpcBuild { peerIds := c.peerIds, protocolIds := c.protocolIds, disableEstablishLink := false }
+
 /-! ### pubsub/controller and link/solicit/controller -/
 
 /-- `pubsub_controller.Controller.handleMountedStream`; `protocolID` is a constructor argument. -/
@@ -375,6 +389,52 @@ def invokerAnswers (ps : List Bytes) (serviceID : Bytes) : Bool :=
 /-- `InvokerController.InvokeMethod` goes through `srpc.NewPrefixInvoker(invoker, prefixes)`. -/
 def invokerSeen (ps : List Bytes) (serviceID : Bytes) : Option Bytes := prefixInvoke ps serviceID
 
+/-! ### `LookupRpcClient`: rpc.ClientController, stream/srpc/client/controller, rpc/access.ClientController -/
+
+/-- `bifrost_rpc.ClientController.HandleDirective` for `LookupRpcClient(serviceID, _)` with
+`matchServicePrefixes = ps`: is a resolver returned? -/
+def clientAnswers (ps : List Bytes) (serviceID : Bytes) : Bool :=
+  if !ps.isEmpty then
+    if (checkStripPrefix serviceID ps).2.isEmpty then false else true
+  else true
+
+/-- `srpc.PrefixClient.stripCheckServiceIDPrefix`: the service ID handed to the wrapped client by
+`ExecCall` / `NewStream`, or `none` when the call is refused (`ErrUnimplemented`). -/
+def prefixClientSeen (ps : List Bytes) (service : Bytes) : Option Bytes :=
+  if !ps.isEmpty then
+    let r := checkStripPrefix service ps
+    if r.2.isEmpty then none else some r.1
+  else some service
+
+/-- `stream_srpc_client_controller.NewController`: the prefix list handed to
+`bifrost_rpc.NewClientController` for the configured `service_id_prefixes`. A list that starts with
+the empty prefix matches every service ID with nothing to strip, and is passed on as "no prefixes"
+(= forward everything unchanged), like the empty list. -/
+def clientPrefixes : List Bytes → List Bytes
+  | [] => []
+  | p :: rest => if p.isEmpty then [] else p :: rest
+
+/-- The controller built from a config: does it answer `LookupRpcClient(serviceID, _)`? -/
+def clientCtlAnswers (cfg : List Bytes) (serviceID : Bytes) : Bool :=
+  clientAnswers (clientPrefixes cfg) serviceID
+
+/-- …and what the remote sees as service ID when the resolved client is used for `serviceID`. -/
+def clientCtlSeen (cfg : List Bytes) (serviceID : Bytes) : Option Bytes :=
+  prefixClientSeen (clientPrefixes cfg) serviceID
+
+/-- `bifrost_rpc_access.ClientController`: `serviceIDRe` / `serverIDRe` are non-nil. -/
+structure AccessClient where
+  hasRe : Bool
+  hasServerRe : Bool
+deriving DecidableEq, Repr
+
+/-- `bifrost_rpc_access.ClientController.HandleDirective` for `LookupRpcService(serviceID, serverID)`:
+each regexp is consulted only for a non-empty ID. -/
+def AccessClient.answers (c : AccessClient) (reMatch srvMatch : Bytes → Bool) (serviceID serverID : Bytes) : Bool :=
+  if c.hasRe && !serviceID.isEmpty && !reMatch serviceID then false
+  else if c.hasServerRe && !serverID.isEmpty && !srvMatch serverID then false
+  else true
+
 /-- `HTTPHandlerController`. -/
 structure HttpCtl where
   prefixes : List Bytes
@@ -416,6 +476,10 @@ def HttpCtl.seen (c : HttpCtl) (reMatch : Bytes → Bool) (path raw : Bytes) : O
 
 /-- `MatchServeMuxPattern`: the method handed to `ServeMux.Handler`. -/
 def muxMethod (m : Bytes) : Bytes := if m.isEmpty then [79, 80, 84, 73, 79, 78, 83] else m  -- "OPTIONS"
+
+/-- `MatchServeMuxPattern`: the `Request.Host` handed to `ServeMux.Handler` — the host of the
+lookup URL (`ServeMux` matches host-qualified patterns against `Request.Host`, never `URL.Host`). -/
+def muxHost (urlHost : Bytes) : Bytes := urlHost
 
 /-- `WebSocketHttp.ResolveLookupHTTPHandler` (after the fix of F23): `pattern` is what
 `ServeMux.Handler` returned for (`muxMethod method`, url); the lookup is answered iff a
@@ -561,6 +625,49 @@ def runSync (s : StE) : List EvE → List Msg × Option RErr
     | none =>
       let r2 := runSync r.1 rest
       (r.2 ++ r2.1, r2.2)
+
+/-- How a `LookupRpcService` call ends (what the function returns), `open` = it has not ended. -/
+inductive StreamEnd where
+  | open
+  | resolverErr (e : RErr)   -- the recorded resolver error, once idle
+  | canceled                 -- `strm.Context().Done()`: `context.Canceled`
+  | sendFailed               -- the error of the failing `strm.Send`
+deriving DecidableEq, Repr
+
+/-- The stream seen by a consumer that keeps up when, in addition, the stream context is cancelled
+after the first `n` callbacks (`cancelAfter = some n`) and / or the `k`-th `Send` (0-based) fails
+(`failAt = some k`): the messages delivered and how the call ends. Every exit path runs the
+deferred `ref.Release()` and the release of the idle callback exactly once (observed by the
+harness, not modelled). -/
+def runEnds (evs : List EvE) (cancelAfter failAt : Option Nat) : List Msg × StreamEnd :=
+  let evs' := match cancelAfter with
+    | some n => evs.take n
+    | none => evs
+  let r := runSync {} evs'
+  let fin : List Msg × StreamEnd := match r.2 with
+    | some e => (r.1, .resolverErr e)
+    | none => (r.1, if cancelAfter.isSome then .canceled else .open)
+  match failAt with
+  | some k => if k < r.1.length then (r.1.take k, .sendFailed) else fin
+  | none => fin
+
+/-! ### C36: the consumer of the stream (`LookupRpcServiceResolver.Resolve`, client-resolver.go) -/
+
+/-- The loop state of `Resolve` for one stream: `valID != 0` (it has added the proxy value to its
+handler) and whether it has marked its handler idle. -/
+structure ResolverView where
+  hasVal : Bool := false
+  idle : Bool := false
+deriving DecidableEq, Repr
+
+/-- One received response: `if removed && valID != 0 { RemoveValue }`, `if exists && valID == 0
+{ AddValue }`, `if resp.GetIdle() { handler.MarkIdle(true) }` — the handler is never marked busy again. -/
+def resolverStep (v : ResolverView) (m : Msg) : ResolverView :=
+  let hv1 := if m.removed && v.hasVal then false else v.hasVal
+  let hv2 := if m.exist && !hv1 then true else hv1
+  { hasVal := hv2, idle := if m.idle then true else v.idle }
+
+def resolverView (v : ResolverView) (msgs : List Msg) : ResolverView := msgs.foldl resolverStep v
 
 /-! ### C36: which directive a request becomes -/
 
